@@ -8,7 +8,7 @@ from proto import T
 RULE = ('for random valid tables (single- and multi-word keys, aliases, parentheses in aliases, names containing and/or/with): '
         'every name of the table in a random case / Unicode-blank variant, placed bare, on either side of AND / OR / WITH, and in '
         'parentheses, next to an unknown word; cases where a longer known name extends beyond the operand are generated too and '
-        'counted apart (the proviso of the property). Spec: the operand resolves to the entry\'s symbol and the rendering shows '
+        'counted apart (the proviso of the property); one case in eight over a table whose names nest as suffixes of one another through an operator word (gnu gpl-2.0 or later / gpl-2.0 or later / or later, in any order of insertion) with the stem (gnu gpl-2.0) a complete operand followed by that operator word. Spec: the operand resolves to the entry\'s symbol and the rendering shows '
         'the canonical key; operator words inside longer words are not operators. Correspondence: tree and rendering with the model. '
         'non-trivial = the variant differs from the stored spelling; distinct by (table, text)')
 ASSUMPTIONS = ['cases where another known name overlaps the operand and extends beyond it are outside the claim (counted, compared with the model only)']
@@ -20,7 +20,31 @@ def occurrences(W, name):
 
 
 class Prop(BaseProp):
+    def case_chain(self, rng):
+        """a complete operand followed by an operator word, in a table where that operand and the operator word start
+        longer names that nest as suffixes of one another (the automaton reports the operator through a chain of links)"""
+        r = gen.gen_chain_table(rng)
+        if not r:
+            return None
+        table, stems, op = r
+        v = gen.variant(rng, rng.choice(stems))
+        other = rng.choice(['zq', 'mit', 'MIT license' if ['MIT', ['mit license'], False] in table else 'mit', 'Zq9'])
+        ex = [e for e in table if e[0] == 'stem-lic'][0][2]
+        me = ['stem-lic', ex]
+        ot = ['MIT', False] if other.lower().startswith('mit') else [other, False]
+        sp = lambda: gen.blank_run(rng)  # noqa
+        text = v + sp() + gen.recase(rng, op) + sp() + other
+        exp = [T('with')] + me + ot if op == 'with' else [T(op), [T('sym')] + me, [T('sym')] + ot]
+        if rng.random() < 0.3:
+            text = 'zz' + sp() + gen.recase(rng, 'and') + sp() + '(' + text + ')'
+            exp = [T('and'), [T('sym'), 'zz', False], exp]
+        return {'table': table, 'text': text, 'expected': exp, 'operand': v, 'ctx': 'chain-' + op, 'variant_differs': True}
+
     def case_random(self, rng):
+        if rng.random() < 0.12:
+            c = self.case_chain(rng)
+            if c:
+                return c
         while True:
             table = gen.gen_table(rng)
             if table:
